@@ -490,6 +490,71 @@ func TestVX_C02(t *testing.T) {
 			}
 		}
 	}
+	// Montgomery-limb-steered triples: the signer subtracts two scalars mod n (s = t - r with t = (k+r)/(1+d), or
+	// k - r*d before the division); in the 2^256-Montgomery representation the arithmetic works on, the wrapped 256-bit
+	// difference W = a - b (+2^256) is *chosen* limb by limb from {0, 1, 2^64-1, 2^64-n_i, 2^64-n_i-1, seeded} - the places
+	// where the carry of the add-back of n changes - b is seeded, a = b + W, and (r, k, e) are solved for a fixed d so
+	// that the two operands have exactly these images. Oracle: sm2ref.Sign as everywhere (seeded C02-N: the carry out
+	// of limb 2 of the add-back replaced by the borrow bit, wrong only when limb 2 of W is 0 and nothing carries in).
+	{
+		two256 := new(big.Int).Lsh(bigOne, 256)
+		rinv := new(big.Int).ModInverse(two256, bigN)
+		mask := new(big.Int).SetUint64(^uint64(0))
+		var nl [4]*big.Int
+		for i := range nl {
+			nl[i] = new(big.Int).And(new(big.Int).Rsh(bigN, uint(64*i)), mask)
+		}
+		two64 := new(big.Int).Lsh(bigOne, 64)
+		limbSet := func(i int) []*big.Int {
+			c := new(big.Int).Mod(new(big.Int).Sub(two64, nl[i]), two64)
+			return []*big.Int{new(big.Int), big.NewInt(1), new(big.Int).Set(mask), c, new(big.Int).Mod(new(big.Int).Sub(c, bigOne), two64),
+				new(big.Int).And(bi(vx.Fill(fmt.Sprintf("c02mont-l%d", i), 8)), mask)}
+		}
+		dM := bi(vx.UnHex("3945208F7B2144B13F36E38AC6D39F95889393692860B51A42FB81EF4DF7C5B8"))
+		dinv := invN(dM)
+		cnt := 0
+		for ci := 0; ci < 6*6*6*6; ci++ {
+			W := new(big.Int)
+			for i, q := 0, ci; i < 4; i, q = i+1, q/6 {
+				W.Or(W, new(big.Int).Lsh(limbSet(i)[q%6], uint(64*i)))
+			}
+			for _, neg := range []bool{true, false} {
+				// b seeded below 2^200; neg: a = b + W - 2^256 (a < b, the subtraction borrows), else a = b + W
+				bM := new(big.Int).Rsh(bi(vx.Fill(fmt.Sprintf("c02mont-b%d", ci%7), 32)), 56)
+				aM := new(big.Int).Add(bM, W)
+				if neg {
+					// a - b wraps to W: b - a = 2^256 - W, so swap roles: the minuend is the smaller one
+					aM, bM = bM, new(big.Int).Add(bM, new(big.Int).Sub(two256, W))
+				}
+				if aM.Cmp(bigN) >= 0 || bM.Cmp(bigN) >= 0 || aM.Sign() == 0 || bM.Sign() == 0 {
+					continue
+				}
+				a, b := modN(new(big.Int).Mul(aM, rinv)), modN(new(big.Int).Mul(bM, rinv))
+				for form := 0; form < 2; form++ {
+					var rv, kv *big.Int
+					if form == 0 {
+						// s = t - r: t = a, r = b, k = t(1+d) - r
+						rv = b
+						kv = modN(new(big.Int).Sub(new(big.Int).Mul(a, new(big.Int).Add(dM, bigOne)), rv))
+					} else {
+						// s = (k - r d)/(1+d): k = a, r d = b
+						kv = a
+						rv = modN(new(big.Int).Mul(b, dinv))
+					}
+					if kv.Sign() == 0 || rv.Sign() == 0 || modN(new(big.Int).Add(rv, kv)).Sign() == 0 {
+						continue
+					}
+					cnt++
+					if !vx.MineIdx(cnt) {
+						continue
+					}
+					ev := modN(new(big.Int).Sub(rv, sm2ref.BaseMul(kv).X))
+					cs := c02case{Kinds: []string{"OK"}, Key: fmt.Sprintf("mont-steered:form%d:neg=%v", form, neg), E: fmt.Sprintf("W-limbs=%d%d%d%d", ci%6, ci/6%6, ci/36%6, ci/216), D: vx.Hex(b32(dM)), Digest: vx.Hex(b32(ev)), Stream: []string{vx.Hex(b32(kv))}}
+					c02evalOne(r, cs)
+				}
+			}
+		}
+	}
 	// invalid keys
 	if vx.MineIdx(0) {
 		for _, b := range []c02bad{
